@@ -113,7 +113,7 @@ def main():
             add(lay, method, 'single', 1, False, bamseed=bs)
             add(lay, method, 'multi', 1 + k % 4, False, bamseed=bs)
         # (3) random layouts up to 12 contigs, every fragment kind, all methods, worker counts 1..4, --no_rejects
-        n_rand = 14 if tier == 'quick' else 300
+        n_rand = 14 if tier == 'quick' else 200
         for k in range(n_rand):
             lay = tg.random_layout(rng, max_contigs=rng.choice([2, 4, 6, 12]))
             method = METHODS[k % 3]
@@ -194,7 +194,7 @@ def main():
             c2['history'] = 'input_path_reused_with_other_content'
         # (4) one contig with more fragments than the molecule iterator's ejection interval (check_eject_every = 10 000):
         #     molecules are ejected while reading, not only at the end
-        for k in range(1 if tier == 'quick' else 3):
+        for k in range(1 if tier == 'quick' else 2):
             def many(n):
                 return [rng.choice(['single'] * 10 + ['multi_umi', 'multi_umi', 'pair', 'dup', 'nomotif', 'half', 'orphan_r2', 'pair_rev',
                                     'umi_bridge']) for _ in range(n)]
@@ -209,7 +209,7 @@ def main():
             method = ['nla', 'chic'][k % 2]
             add(lay, method, 'single', 1, False, bamseed=bs)
             if tier != 'quick':
-                add(lay, method, 'multi', 2, k == 2, bamseed=bs)
+                add(lay, method, "multi", 2, k == 1, bamseed=bs)
     results = th.run_cases(cases, workdir, parallel=8, timeout=300)
     with open(outp, 'w') as f:
         for c in cases:
